@@ -232,7 +232,8 @@ pub fn run_once<R: Send + 'static>(
     let mut points: Vec<Point> = vec![];
     let mut deadlock = None;
     let mut diverged = None;
-    let watchdog = Duration::from_secs(20);
+    // generous: on a machine that is busy with something else (heavy disk copies) threads were seen not to start for 20 s
+    let watchdog = Duration::from_secs(90);
     loop {
         // wait until no managed thread is running
         let t0 = Instant::now();
